@@ -84,6 +84,12 @@ func addSubstProcs(r rng, p *sdl.Program) {
 					ru.SubType = sdl.DecoOf(tt.Name)
 				}
 				pr.Rules = append(pr.Rules, ru)
+				if at == sdl.CbBeforeInst && action == "substitute" && len(p.Instances) >= 2 && r.p(0.4) {
+					// the hook first looks another component up, then answers with its substitute
+					if b := pick(r, p.Instances); b.ID != tgt.ID {
+						pr.Rules = append(pr.Rules, &sdl.Rule{Target: tgt.ID, At: sdl.CbBeforeInst, Action: "lookup", Sub: b.ID})
+					}
+				}
 			}
 		}
 		if pr.Class != "plain" && len(p.Instances) >= 2 && r.p(0.25) {
@@ -228,6 +234,17 @@ func addLifeStuff(r rng, p *sdl.Program) {
 				// the runner works its order out while it initialises
 				raw := pick(r, orderVals)
 				inst.OrderRaw = &raw
+				if !t.Lazy && r.p(0.5) {
+					// ... holds the application component and is created before it
+					hasApp := false
+					for _, pt := range t.Points {
+						hasApp = hasApp || pt.Kind == sdl.KApp
+					}
+					if !hasApp {
+						t.Points = append(t.Points, &sdl.Point{Field: "FA", Kind: sdl.KApp, Sel: sdl.SelType})
+					}
+					inst.Alias = "a-" + inst.ID
+				}
 			}
 			ni++
 			p.Instances = append(p.Instances, inst)
@@ -618,6 +635,13 @@ func genConfig(r rng, seed uint64, id string, merge bool) *sdl.Program {
 		p.Types = append(p.Types, t)
 		p.Instances = append(p.Instances, &sdl.Instance{ID: fmt.Sprintf("c%d", ti), Type: t.Name, PresetCfg: r.p(0.25)})
 	}
+	// a component with configuration fields that is itself a post-processor: created while the
+	// processor list is being put together, bound and validated like any other
+	if !merge && r.p(0.12) && len(p.Types) >= 1 {
+		if t := pick(r, p.Types); !t.Zero && !t.Local && t.Role == "" {
+			t.Proc = true
+		}
+	}
 	// every component holds a configuration holder of one type that names its section per
 	// instance, the sections alternate
 	if !merge && r.p(0.1) && len(p.Types) >= 2 {
@@ -864,12 +888,17 @@ func GenerateTwins(seed uint64, idFlat, idEmb string) (*sdl.Program, *sdl.Progra
 			t.Custom = append(t.Custom, &sdl.Custom{Field: "Mark", Tag: pick(r, customTags), Val: pick(r, []string{"", "m1"}), Exported: true, Anon: true})
 		}
 		// frame fields of every kind
-		kinds := []string{"untagged", "unexported", "foreign", "named", "taggedEmbed", "ptrEmbed", "lookalike", "ptrEmbedSet"}
+		kinds := []string{"untagged", "unexported", "foreign", "named", "taggedEmbed", "ptrEmbed", "lookalike", "ptrEmbedSet", "prefixer"}
 		for fi, kind := range kinds {
 			if !r.p(0.5) {
 				continue
 			}
 			fr := &sdl.Frame{Kind: kind}
+			if kind == "prefixer" {
+				fr.GoType, fr.Field = "int", fmt.Sprintf("R%d", fi)
+				t.Frame = append(t.Frame, fr)
+				continue
+			}
 			switch r.IntN(3) {
 			case 0:
 				fr.GoType = "int"
